@@ -218,7 +218,8 @@ pub fn undo_renaming(id: &str, renamify_dir: &Path) -> Result<()> {
     });
 
     for (from, to) in &file_renames {
-        if to.exists() {
+        // symlink_metadata: a renamed symlink may be dangling, exists() would follow it
+        if fs::symlink_metadata(to).is_ok() {
             // Handle case-only renames on case-insensitive filesystems
             let case_only = from.to_string_lossy().to_lowercase()
                 == to.to_string_lossy().to_lowercase()
